@@ -10,10 +10,9 @@
 //	                      incompressible) through the real writeHeader/finish, then the real
 //	                      readHeader/readFrame; enc/dec = oklen:<n> | err | none: what the real codec
 //	                      answered for the one Encode / Decode call, as a LENGTH (the model works on
-//	                      lengths only: C18_finish_by_length, C18_read_by_length). `big` = the compressed
-//	                      form fits a frame (spec-backed: C18_delivered) or the sender refuses;
-//	                      `bigx` = the compressor expands the body over the limit (C18_cex_expanded_over_limit,
-//	                      model vs code).
+//	                      lengths only: C18_finish_by_length, C18_read_by_length). Spec-backed
+//	                      (C18_delivered: delivered, or the sender gets ErrFrameTooBig — also when the
+//	                      compressor expands the body over the limit: C18_expanded_over_limit_refused).
 package main
 
 import (
@@ -21,7 +20,6 @@ import (
 	"encoding/binary"
 	"fmt"
 	"runtime/debug"
-	"strings"
 
 	"github.com/gocql/gocql"
 	"github.com/gocql/gocql/lz4"
@@ -301,10 +299,14 @@ func bigRun(compName string, ver, hflag byte, gen string, n int) (ans, enc, dec 
 	}
 	body := bigBody(gen, n)
 	wire, err := gocql.VerifC18Raw(ver, comp, 0, hflag, 7, 1, body)
+	hs := headSize(ver)
 	if err != nil {
+		if comp != nil && hflag&1 == 1 && hs+n <= maxFrame {
+			// the buffer fitted: finish got as far as the compressor; what it answered, for the op line
+			enc = lenRes(comp.Encode(body))
+		}
 		return "build=" + classify(err), enc, dec
 	}
-	hs := headSize(ver)
 	if comp != nil && hflag&1 == 1 {
 		enc = fmt.Sprintf("oklen:%d", len(wire)-hs)
 	}
@@ -362,10 +364,9 @@ func genBig(r *vh.Rng, class string) (op, ans, cls string) {
 		gen = fmt.Sprintf("r%d", r.Intn(1000))
 	}
 	ans, enc, dec := bigRun(comp, ver, hflag, gen, n)
+	// since the repair of KF-C18-2 the bodies the compressor expands over the limit are spec-backed too
+	// (C18_delivered: delivered, or the sender gets ErrFrameTooBig); `bigx` is kept for old replays only
 	word := "big"
-	if strings.HasPrefix(enc, "oklen:") && atoi(enc[6:]) > maxFrame {
-		word = "bigx" // exactly the predicate C18_delivered's hypothesis hz excludes
-	}
 	bigCache.body = nil
 	return fmt.Sprintf("%s %s %d %d %d %s %s %s", word, comp, ver, hflag, n, gen, enc, dec), ans, word + "/" + class + "/" + comp
 }
